@@ -16,7 +16,7 @@ echo "demo with patch: exit $r1"
 tail -5 /var/tmp/vp-seedverify-$$.log
 rt=skipped
 if [ "$1" = "--tests" ]; then
-  ( cd $w && PYTHONPATH=$w /venv/bin/python -m pytest -q -p no:cacheprovider --timeout=900 --continue-on-collection-errors -x -q -n 8 2>&1 | tail -3 ) ; rt=$?
+  ( cd $w && PYTHONPATH=$w /venv/bin/python -m pytest -q -p no:cacheprovider --timeout=900 --continue-on-collection-errors -x -q -n 6 2>&1 | tail -3 ) ; rt=$?
 fi
 rm -rf /var/tmp/vp-seedverify-$$.log /var/tmp/vp-seedverify-cache-$$
 [ $r0 -eq 0 ] && [ $r1 -ne 0 ] && echo "SEED-OK (tests: $rt)" || echo "SEED-BAD"
